@@ -6,6 +6,7 @@ export GOFLAGS=-mod=mod GOPROXY=off GOSUMDB=off GOTOOLCHAIN=local CGO_ENABLED=1
 mkdir -p "$VERIF/.build/bin" "$VERIF/evidence" "$VERIF/replays"
 python3 "$VERIF/tools/mkoverlay.py" >/dev/null || exit 1
 cp /repo/go.sum "$VERIF/harness/go.sum"
+"$VERIF/xcrypto_model/conformance.sh" > "$VERIF/.build/xcrypto-conformance.log" 2>&1 || { echo "setup: xcrypto stand-in conformance FAILED (see .build/xcrypto-conformance.log)" >&2; touch "$VERIF/.build/xcrypto-conformance.FAILED"; }
 cd "$VERIF/harness" || exit 1
 rc=0
 for d in cmd/*/; do
